@@ -1,1 +1,535 @@
-//! Observations used by the search oracles.
+//! Property observations on syntax trees (DESIGN.md Appendix E) and the executable oracles built
+//! from them. They are used by the *search* for failing inputs and never stand in for a theorem.
+use typst_syntax::{ast, is_newline, SyntaxKind as K, SyntaxNode};
+
+pub fn count_newlines(text: &str) -> usize {
+    let mut n = 0;
+    let mut it = text.chars().peekable();
+    while let Some(c) = it.next() {
+        if is_newline(c) {
+            if c == '\r' && it.peek() == Some(&'\n') {
+                it.next();
+            }
+            n += 1;
+        }
+    }
+    n
+}
+
+pub fn has_newline(text: &str) -> bool {
+    text.chars().any(is_newline)
+}
+
+fn is_comment(k: K) -> bool {
+    matches!(k, K::LineComment | K::BlockComment)
+}
+
+/// Strip White_Space at line ends (what post-processing may do) and normalise line ends to LF.
+pub fn strip_line_ends(s: &str) -> String {
+    let mut out = String::new();
+    for (i, l) in s.split('\n').enumerate() {
+        if i > 0 {
+            out.push('\n');
+        }
+        out.push_str(l.trim_end());
+    }
+    out
+}
+
+// ---------------------------------------------------------------- skeleton (C01, C13)
+
+fn is_code_list(k: K) -> bool {
+    matches!(
+        k,
+        K::Array | K::Dict | K::Args | K::Params | K::Destructuring | K::ImportItems | K::Code | K::CodeBlock
+            | K::ModuleImport | K::Parenthesized
+    )
+}
+
+/// Is this node directly inside math (so that commas/semicolons of Args are significant)?
+fn skel_into(node: &SyntaxNode, in_math: bool, sort_imports: bool, out: &mut String) {
+    let k = node.kind();
+    // grouping parentheses around a whole expression are layout
+    if k == K::Parenthesized {
+        if let Some(inner) = node.children().find(|c| {
+            !matches!(c.kind(), K::LeftParen | K::RightParen | K::Space | K::LineComment | K::BlockComment)
+        }) {
+            skel_into(inner, in_math, sort_imports, out);
+            return;
+        }
+    }
+    // braces around a single non-statement expression are layout
+    if k == K::CodeBlock {
+        if let Some(code) = node.children().find(|c| c.kind() == K::Code) {
+            let exprs: Vec<&SyntaxNode> = code.children().filter(|c| c.is::<ast::Expr>()).collect();
+            if exprs.len() == 1 && !exprs[0].kind().is_stmt() && code.children().all(|c| c.kind() != K::Semicolon) {
+                skel_into(exprs[0], false, sort_imports, out);
+                return;
+            }
+        }
+    }
+    if node.children().len() == 0 {
+        out.push_str(&format!("{:?}", k));
+        if !node.text().is_empty() {
+            out.push(':');
+            if k == K::Str {
+                // literal content at line ends is C10's business (known finding F4)
+                out.push_str(&format!("{:?}", strip_line_ends(node.text().as_str())));
+            } else {
+                out.push_str(&format!("{:?}", node.text().as_str()));
+            }
+        }
+        return;
+    }
+    if k == K::Raw {
+        if let Some(raw) = node.cast::<ast::Raw>() {
+            out.push_str(&format!(
+                "Raw(block={},lang={:?},lines={:?})",
+                raw.block(),
+                raw.lang().map(|l| l.get().to_string()),
+                raw.lines().map(|l| l.get().trim_end().to_string()).collect::<Vec<_>>()
+            ));
+            return;
+        }
+    }
+    out.push('(');
+    out.push_str(&format!("{:?}", k));
+    if k == K::Equation {
+        if let Some(eq) = node.cast::<ast::Equation>() {
+            out.push_str(if eq.block() { " block" } else { " inline" });
+        }
+    }
+    let math_here = match k {
+        K::Equation | K::Math | K::MathDelimited | K::MathAttach | K::MathFrac | K::MathRoot | K::MathPrimes => true,
+        K::Markup | K::CodeBlock | K::ContentBlock | K::Code => false,
+        _ => in_math,
+    };
+    if k == K::Markup {
+        skel_markup(node, sort_imports, out);
+    } else {
+        let args_in_math = k == K::Args && in_math;
+        let mut parts: Vec<String> = Vec::new();
+        for c in node.children() {
+            let ck = c.kind();
+            if matches!(ck, K::Space | K::Parbreak | K::LineComment | K::BlockComment | K::Shebang) {
+                continue;
+            }
+            if is_code_list(k) && !args_in_math {
+                if matches!(ck, K::Comma | K::Semicolon | K::LeftParen | K::RightParen | K::LeftBrace | K::RightBrace) {
+                    continue;
+                }
+                if k == K::Dict && ck == K::Colon {
+                    continue;
+                }
+            }
+            let mut s = String::new();
+            skel_into(c, math_here, sort_imports, &mut s);
+            parts.push(s);
+        }
+        if k == K::ImportItems && sort_imports {
+            parts.sort();
+        }
+        for p in parts {
+            out.push(' ');
+            out.push_str(&p);
+        }
+    }
+    out.push(')');
+}
+
+fn skel_markup(node: &SyntaxNode, sort_imports: bool, out: &mut String) {
+    // items: merged text runs, PAR markers, other children; whitespace at both edges dropped
+    let mut items: Vec<String> = Vec::new();
+    let mut cur: Option<String> = None;
+    let mut pending_space = false;
+    let flush = |cur: &mut Option<String>, items: &mut Vec<String>| {
+        if let Some(t) = cur.take() {
+            items.push(format!("T{:?}", t));
+        }
+    };
+    for c in node.children() {
+        match c.kind() {
+            K::Space => pending_space = true,
+            K::Parbreak => {
+                flush(&mut cur, &mut items);
+                pending_space = false;
+                items.push("PAR".to_string());
+            }
+            K::LineComment | K::BlockComment | K::Shebang => {}
+            K::Text => {
+                let t = c.text().as_str();
+                match cur.as_mut() {
+                    Some(s) => {
+                        if pending_space {
+                            s.push(' ');
+                        }
+                        s.push_str(t);
+                    }
+                    None => {
+                        if pending_space && !items.is_empty() {
+                            items.push("SP".to_string());
+                        }
+                        cur = Some(t.to_string());
+                    }
+                }
+                pending_space = false;
+            }
+            _ => {
+                let had_text = cur.is_some();
+                flush(&mut cur, &mut items);
+                if pending_space && (had_text || !items.is_empty()) {
+                    items.push("SP".to_string());
+                }
+                pending_space = false;
+                let mut s = String::new();
+                skel_into(c, false, sort_imports, &mut s);
+                items.push(s);
+            }
+        }
+    }
+    flush(&mut cur, &mut items);
+    // drop PAR/SP at the edges
+    while matches!(items.last().map(|s| s.as_str()), Some("PAR") | Some("SP")) {
+        items.pop();
+    }
+    let start = items.iter().position(|s| s != "PAR" && s != "SP").unwrap_or(items.len());
+    // normalise: collapse whitespace inside merged text
+    for it in items.into_iter().skip(start) {
+        out.push(' ');
+        if let Some(t) = it.strip_prefix('T') {
+            let collapsed: Vec<&str> = t.split(' ').filter(|w| !w.is_empty()).collect();
+            out.push('T');
+            out.push_str(&collapsed.join(" "));
+        } else {
+            out.push_str(&it);
+        }
+    }
+}
+
+pub fn skeleton(root: &SyntaxNode, sort_imports: bool) -> String {
+    let mut s = String::new();
+    skel_into(root, false, sort_imports, &mut s);
+    s
+}
+
+// ---------------------------------------------------------------- leaves
+
+pub fn leaves<'a>(node: &'a SyntaxNode, out: &mut Vec<&'a SyntaxNode>) {
+    if node.children().len() == 0 {
+        out.push(node);
+    } else {
+        for c in node.children() {
+            leaves(c, out);
+        }
+    }
+}
+
+fn is_punct(k: K) -> bool {
+    matches!(
+        k,
+        K::LeftBrace | K::RightBrace | K::LeftBracket | K::RightBracket | K::LeftParen | K::RightParen | K::Comma
+            | K::Semicolon | K::Colon | K::Star | K::Underscore | K::Dollar | K::Plus | K::Minus | K::Slash | K::Hat
+            | K::Prime | K::Dot | K::Eq | K::EqEq | K::ExclEq | K::Lt | K::LtEq | K::Gt | K::GtEq | K::PlusEq
+            | K::HyphEq | K::StarEq | K::SlashEq | K::Dots | K::Arrow | K::Root | K::Hash | K::HeadingMarker
+            | K::ListMarker | K::EnumMarker | K::TermMarker | K::RawDelim | K::RawTrimmed | K::MathAlignPoint
+            | K::Linebreak | K::End | K::Not | K::In | K::And | K::Or
+    )
+}
+
+fn is_word(n: &SyntaxNode) -> bool {
+    let k = n.kind();
+    !(k.is_trivia() || is_punct(k)) && !n.text().is_empty()
+}
+
+// ---------------------------------------------------------------- comments (C06)
+
+fn norm_comment(text: &str) -> String {
+    let t = text.replace("\r\n", "\n");
+    t.split('\n').map(|l| l.trim()).collect::<Vec<_>>().join("\n")
+}
+
+fn word_edge(n: &SyntaxNode, last: bool) -> String {
+    let t = n.text().as_str();
+    if n.kind() == K::Text {
+        let mut it = t.split_whitespace();
+        let w = if last { it.next_back() } else { it.next() };
+        format!("Text:{}", w.unwrap_or(""))
+    } else if n.kind() == K::Str {
+        format!("Str:{}", strip_line_ends(t))
+    } else {
+        format!("{:?}:{}", n.kind(), t)
+    }
+}
+
+/// (kind, normalised text, previous word, next word) per comment, in leaf order.
+pub fn obs_comments(root: &SyntaxNode) -> Vec<(String, String, String, String)> {
+    let mut ls = Vec::new();
+    leaves(root, &mut ls);
+    let mut res = Vec::new();
+    for (i, l) in ls.iter().enumerate() {
+        if is_comment(l.kind()) {
+            let prev = ls[..i].iter().rev().find(|n| is_word(n)).map(|n| word_edge(n, true)).unwrap_or_default();
+            let next = ls[i + 1..].iter().find(|n| is_word(n)).map(|n| word_edge(n, false)).unwrap_or_default();
+            res.push((format!("{:?}", l.kind()), norm_comment(l.text()), prev, next));
+        }
+    }
+    res
+}
+
+// ---------------------------------------------------------------- directive (C07)
+
+fn collect_off(node: &SyntaxNode, out: &mut Vec<(String, String)>) {
+    let mut pending = false;
+    for c in node.children() {
+        let k = c.kind();
+        if is_comment(k) {
+            if c.text().contains("@typstyle off") {
+                pending = true;
+            }
+            continue;
+        }
+        if pending && !matches!(k, K::Space | K::Hash) {
+            pending = false;
+            if c.is::<ast::Expr>() || matches!(k, K::Code | K::Math) {
+                out.push((format!("{:?}", k), strip_line_ends(&c.clone().into_text())));
+            }
+            continue;
+        }
+        collect_off(c, out);
+    }
+}
+
+/// For every directive comment: kind and source text of the node it protects.
+pub fn obs_off(root: &SyntaxNode) -> Vec<(String, String)> {
+    let mut v = Vec::new();
+    collect_off(root, &mut v);
+    v
+}
+
+// ---------------------------------------------------------------- markup (C08)
+
+fn ws_class(n: &SyntaxNode) -> String {
+    match n.kind() {
+        K::Parbreak => format!("<P{}>", count_newlines(n.text())),
+        _ => {
+            if has_newline(n.text()) {
+                "<B>".to_string()
+            } else {
+                "<S>".to_string()
+            }
+        }
+    }
+}
+
+fn obs_markup_node(node: &SyntaxNode, out: &mut Vec<Vec<String>>) {
+    if node.kind() == K::Markup {
+        let mut items: Vec<String> = Vec::new();
+        for c in node.children() {
+            match c.kind() {
+                K::Space | K::Parbreak => items.push(ws_class(c)),
+                K::Text | K::Escape | K::Shorthand | K::SmartQuote | K::Link | K::Label | K::Linebreak => {
+                    items.push(format!("{:?}:{}", c.kind(), c.text()))
+                }
+                K::Ref => {
+                    let m = c.children().find(|x| x.kind() == K::RefMarker).map(|x| x.text().to_string());
+                    items.push(format!("Ref:{}", m.unwrap_or_default()))
+                }
+                K::Heading | K::ListItem | K::EnumItem | K::TermItem => items.push("Block".to_string()),
+                K::LineComment | K::BlockComment | K::Hash | K::Semicolon | K::Shebang | K::Strong | K::Emph
+                | K::Raw | K::Equation => items.push(format!("{:?}", c.kind())),
+                _ => items.push("Code".to_string()),
+            }
+        }
+        // a blank (no line break) directly after or before a block-level element is edge whitespace
+        let mut filtered: Vec<String> = Vec::new();
+        for (i, it) in items.iter().enumerate() {
+            if it == "<S>" {
+                let prev_block = i > 0 && items[i - 1] == "Block";
+                let next_block = i + 1 < items.len() && items[i + 1] == "Block";
+                if prev_block || next_block {
+                    continue;
+                }
+            }
+            filtered.push(it.clone());
+        }
+        let items = filtered;
+        // merge Text <S> Text the way the lexer would after whitespace normalisation
+        let mut merged: Vec<String> = Vec::new();
+        for it in items {
+            let n = merged.len();
+            if it.starts_with("Text:") && n >= 2 && merged[n - 1] == "<S>" && merged[n - 2].starts_with("Text:") {
+                merged.pop();
+                let prev = merged.pop().unwrap();
+                merged.push(format!("{} {}", prev, &it[5..]));
+            } else {
+                merged.push(it);
+            }
+        }
+        while matches!(merged.last(), Some(s) if s.starts_with('<')) {
+            merged.pop();
+        }
+        let start = merged.iter().position(|s| !s.starts_with('<')).unwrap_or(merged.len());
+        out.push(merged.split_off(start));
+    }
+    for c in node.children() {
+        obs_markup_node(c, out);
+    }
+}
+
+pub fn obs_markup(root: &SyntaxNode) -> Vec<Vec<String>> {
+    let mut v = Vec::new();
+    obs_markup_node(root, &mut v);
+    v
+}
+
+// ---------------------------------------------------------------- math (C09)
+
+fn edge_leaf(n: &SyntaxNode) -> String {
+    let mut ls = Vec::new();
+    leaves(n, &mut ls);
+    let sig: Vec<&&SyntaxNode> = ls.iter().filter(|l| !l.kind().is_trivia()).collect();
+    let f = sig.first().map(|l| l.text().to_string()).unwrap_or_default();
+    let l = sig.last().map(|l| l.text().to_string()).unwrap_or_default();
+    format!("{:?}[{}..{}]", n.kind(), f, l)
+}
+
+fn obs_math_node(node: &SyntaxNode, out: &mut Vec<Vec<String>>) {
+    match node.kind() {
+        K::Math | K::MathDelimited => {
+            let mut items = Vec::new();
+            let mut sep = 0; // 0 none, 1 space, 2 break
+            let mut first = true;
+            for c in node.children() {
+                if c.kind() == K::Space {
+                    sep = sep.max(if has_newline(c.text()) { 2 } else { 1 });
+                } else if is_comment(c.kind()) {
+                    continue;
+                } else {
+                    if !first {
+                        items.push(["<>", "<S>", "<B>"][sep].to_string());
+                    }
+                    first = false;
+                    sep = 0;
+                    items.push(edge_leaf(c));
+                }
+            }
+            out.push(items);
+        }
+        K::Equation => {
+            let block = node.cast::<ast::Equation>().map(|e| e.block()).unwrap_or(false);
+            out.push(vec![format!("Equation block={}", block)]);
+        }
+        _ => {}
+    }
+    for c in node.children() {
+        obs_math_node(c, out);
+    }
+}
+
+pub fn obs_math(root: &SyntaxNode) -> Vec<Vec<String>> {
+    let mut v = Vec::new();
+    obs_math_node(root, &mut v);
+    v
+}
+
+// ---------------------------------------------------------------- literals (C10)
+
+fn obs_lit_node(node: &SyntaxNode, out: &mut Vec<String>) {
+    match node.kind() {
+        K::Str | K::Int | K::Float | K::Numeric | K::Bool | K::Ident | K::MathIdent | K::Label | K::Link | K::Escape
+        | K::Shorthand | K::RefMarker | K::MathText | K::MathShorthand => {
+            out.push(format!("{:?}:{}", node.kind(), node.text()));
+        }
+        K::Raw => {
+            if let Some(raw) = node.cast::<ast::Raw>() {
+                let ticks = node
+                    .children()
+                    .find(|c| c.kind() == K::RawDelim)
+                    .map(|d| d.text().len())
+                    .unwrap_or(0);
+                out.push(format!(
+                    "Raw:block={} lang={:?} ticks={} lines=\n{}",
+                    raw.block(),
+                    raw.lang().map(|l| l.get().to_string()),
+                    ticks,
+                    raw.lines().map(|l| l.get().to_string()).collect::<Vec<_>>().join("\n")
+                ));
+            }
+            return;
+        }
+        _ => {}
+    }
+    for c in node.children() {
+        obs_lit_node(c, out);
+    }
+}
+
+pub fn obs_literals(root: &SyntaxNode) -> Vec<String> {
+    let mut v = Vec::new();
+    obs_lit_node(root, &mut v);
+    v
+}
+
+// ---------------------------------------------------------------- imports (C19)
+
+fn obs_import_node(node: &SyntaxNode, out: &mut Vec<Vec<String>>) {
+    if node.kind() == K::ModuleImport {
+        let mut items = Vec::new();
+        for c in node.children() {
+            if c.kind() == K::ImportItems {
+                for it in c.children() {
+                    if matches!(it.kind(), K::ImportItemPath | K::RenamedImportItem) {
+                        // item text without trivia
+                        let mut ls = Vec::new();
+                        leaves(it, &mut ls);
+                        let t: Vec<String> =
+                            ls.iter().filter(|l| !l.kind().is_trivia()).map(|l| l.text().to_string()).collect();
+                        items.push(t.join(" "));
+                    }
+                }
+            }
+        }
+        out.push(items);
+    }
+    for c in node.children() {
+        obs_import_node(c, out);
+    }
+}
+
+pub fn obs_imports(root: &SyntaxNode) -> Vec<Vec<String>> {
+    let mut v = Vec::new();
+    obs_import_node(root, &mut v);
+    v
+}
+
+/// Source text with every ImportItems region (and its optional parentheses) blanked out.
+pub fn without_import_items(root: &SyntaxNode) -> String {
+    fn go(n: &SyntaxNode, in_import: bool, out: &mut String) {
+        if n.kind() == K::ImportItems {
+            out.push_str("<ITEMS>");
+            return;
+        }
+        if in_import && matches!(n.kind(), K::LeftParen | K::RightParen | K::Space) {
+            return;
+        }
+        if n.children().len() == 0 {
+            out.push_str(n.text());
+        } else {
+            let imp = n.kind() == K::ModuleImport;
+            for c in n.children() {
+                go(c, imp, out);
+            }
+        }
+    }
+    let mut s = String::new();
+    go(root, false, &mut s);
+    s
+}
+
+pub fn count_nodes(n: &SyntaxNode) -> usize {
+    1 + n.children().map(count_nodes).sum::<usize>()
+}
+
+pub fn depth(n: &SyntaxNode) -> usize {
+    1 + n.children().map(depth).max().unwrap_or(0)
+}
